@@ -184,7 +184,7 @@ def r15_datafile_order(ctx, rule='R15'):
               and n.slice.value == 'path')}
     pes, problems = check_order(
         ctx, rule, rp, preds,
-        not_after=[('HASH', 'CLOSE'), ('TELL', 'CLOSE'), ('INSERT_HASH', 'READ_PATH')],
+        not_after=[('HASH', 'CLOSE'), ('TELL', 'CLOSE')],
         before=[('FINALIZE_FILE', 'TELL'), ('FINALIZE_FILE', 'HASH'), ('FINALIZE_FILE', 'GETSIZE'), ('CLOSE', 'GETSIZE'),
                 ('FINALIZE_FILE', 'WRITE_OUT'), ('CLOSE', 'WRITE_OUT'), ('WRITE_OUT', 'UNLINK')],
         after_loop=[(x, lp) for x in ('FINALIZE_FILE', 'TELL', 'GETSIZE', 'HASH', 'CLOSE', 'WRITE_OUT', 'UNLINK')],
@@ -198,6 +198,12 @@ def r15_datafile_order(ctx, rule='R15'):
                  'finalize_file < tell/hash < close < write_file_to_output < unlink, all after the row loop',
                  'size / hash / copy of a data file are taken at the wrong moment (a text-mode file that is still open is not '
                  'flushed: its on-disk size is smaller than what was written)')
+    # the output location is read from the descriptor only after the hash directory was inserted into it
+    pes2, problems2 = check_order(ctx, rule, rp, {k: preds[k] for k in ('INSERT_HASH', 'READ_PATH')},
+                                  not_after=[('INSERT_HASH', 'READ_PATH')])
+    report_order(ctx, rule, rp, problems2, pes2, 'descriptor path read after insert_hash_in_path',
+                 'the path the file is copied out under is read before the hash directory is inserted into the descriptor: the '
+                 'descriptor records <dir>/<hash>/<name> while the file is written to <dir>/<name>')
     # same temp-file value
     params = rp.params
     facts = Facts(rp, include_nested=False)
